@@ -8,6 +8,10 @@ use crate::big::Big;
 pub enum FK {
     F32,
     F64,
+    /// IEEE binary16 (`half::f16`, optional feature `f16` of the library)
+    F16,
+    /// bfloat16 (`half::bf16`)
+    BF16,
 }
 
 impl FK {
@@ -15,12 +19,16 @@ impl FK {
         match self {
             FK::F32 => 24,
             FK::F64 => 53,
+            FK::F16 => 11,
+            FK::BF16 => 8,
         }
     }
     pub fn exp_bits(self) -> u32 {
         match self {
             FK::F32 => 8,
             FK::F64 => 11,
+            FK::F16 => 5,
+            FK::BF16 => 8,
         }
     }
     pub fn bias(self) -> i32 {
@@ -30,12 +38,14 @@ impl FK {
         match self {
             FK::F32 => 32,
             FK::F64 => 64,
+            FK::F16 | FK::BF16 => 16,
         }
     }
     pub fn mask(self) -> u64 {
         match self {
             FK::F32 => 0xffff_ffff,
             FK::F64 => u64::MAX,
+            FK::F16 | FK::BF16 => 0xffff,
         }
     }
     pub fn sign_bit(self) -> u64 {
@@ -61,6 +71,8 @@ impl FK {
         match self {
             FK::F32 => "f32",
             FK::F64 => "f64",
+            FK::F16 => "f16",
+            FK::BF16 => "bf16",
         }
     }
 }
@@ -71,6 +83,18 @@ pub enum FV {
     Inf(bool),
     /// value = (-1)^neg * mant * 2^exp
     Fin { neg: bool, mant: u64, exp: i32 },
+}
+
+/// binary16 -> f64 from the format definition, written differently from `decode` (table of cases)
+fn mine_f16(b: u16) -> f64 {
+    let s = if b & 0x8000 != 0 { -1.0 } else { 1.0 };
+    let e = ((b >> 10) & 0x1f) as i32;
+    let m = (b & 0x3ff) as f64;
+    if e == 0 {
+        s * m * 2f64.powi(-24)
+    } else {
+        s * (1024.0 + m) * 2f64.powi(e - 25)
+    }
 }
 
 pub fn decode(k: FK, bits: u64) -> FV {
@@ -243,7 +267,7 @@ pub fn selftest() -> Result<u64, String> {
     };
     let mut n = 0;
     for i in 0..60000u64 {
-        for k in [FK::F32, FK::F64] {
+        for k in [FK::F32, FK::F64, FK::F16, FK::BF16] {
             let mut bits = next() & k.mask();
             if i % 5 == 0 {
                 bits &= !(k.exp_field_max() << (k.prec() - 1)); // subnormals
@@ -262,6 +286,10 @@ pub fn selftest() -> Result<u64, String> {
                     let host = match k {
                         FK::F32 => f32::from_bits(bits as u32) as f64,
                         FK::F64 => f64::from_bits(bits),
+                        // bfloat16 is the upper half of binary32; binary16 has no host type (checked by the
+                        // round trip above and by the hand-computed vectors below)
+                        FK::BF16 => f32::from_bits((bits as u32) << 16) as f64,
+                        FK::F16 => mine_f16(bits as u16),
                     };
                     let mine = (mant as f64) * 2f64.powi(exp / 2) * 2f64.powi(exp - exp / 2) * if neg { -1.0 } else { 1.0 };
                     if host != mine && !(host == 0.0 && mine == 0.0) {
